@@ -169,6 +169,12 @@ pub fn plan(prop: &str, tier: &str) -> Option<Plan> {
                             continue;
                         }
                         b.add_cases("seq/graphs", e(e0).set("shape", shape).set("age", age), seq::graph_cases(shape), 500);
+                        if age == 4 && (!quick || e0 == 0) {
+                            // edges released by AtomicRc::drop instead of pop_edges (none / only slot 0 popped)
+                            for pop in [0, 1] {
+                                b.add_cases("seq/graphs", e(e0).set("shape", shape).set("age", age).set("pop", pop), seq::graph_cases(shape), 500);
+                            }
+                        }
                     }
                 }
             }
@@ -189,7 +195,7 @@ pub fn plan(prop: &str, tier: &str) -> Option<Plan> {
             for &e0 in res.iter() {
                 b.add_cases("seq/latency", e(e0).set("grid", grid), seq::latency_cases(grid), if quick { 160 } else { 256 });
             }
-            rule = "every point of the grid n x shape {chain, balanced tree, left comb, right comb} x held-node position x link age x link construction {store, From} x epoch residue; each case drops the head and counts epoch advances until the last destructor";
+            rule = "every point of the grid n x shape {chain, balanced tree, left comb, right comb, right spine (null edge before the live one), zig-zag} x held-node position x link age x link construction {store, From} x epoch residue; each case drops the head and counts epoch advances until the last destructor";
             bounds = json!({"n": if quick { seq::LAT_NS_QUICK.to_vec() } else { seq::LAT_NS.to_vec() }, "residues": res, "bound": "16 + 12*ceil(n/1024) epochs"});
         }
         "C08" => {
@@ -210,7 +216,7 @@ pub fn plan(prop: &str, tier: &str) -> Option<Plan> {
                 b.add_cases("seq/wcell", e(e0), seq::seq_cases(n, depth), 1500);
             }
             let bq = if quick { 2 } else { 3 };
-            b.add("cell/wconcurrent", if quick { few } else { all }, &[&[("prog", 0)], &[("prog", 1)], &[("prog", 2)]], bq);
+            b.add("cell/wconcurrent", if quick { few } else { all }, &[&[("prog", 0)], &[("prog", 1)], &[("prog", 2)], &[("prog", 3)]], bq);
             rule = "as C08 for AtomicWeak, the expected WeakSnapshot obtained in three ways (from the cell, downgraded from a Snapshot loaded from an AtomicRc written at another epoch, taken from a Weak made from an Rc that came out of a swap)";
             bounds = json!({"depth": depth, "alphabet": n, "preemptions": bq});
         }
@@ -226,7 +232,7 @@ pub fn plan(prop: &str, tier: &str) -> Option<Plan> {
         }
         "C13" | "C14" => {
             let two: &[i64] = &[0, 2, 5, 6, 7];
-            let three: &[i64] = &[1, 3, 4];
+            let three: &[i64] = &[1, 3, 4, 8];
             let bags: &[i64] = &[64, 2];
             for &bag in bags {
                 for &pr in two {
